@@ -112,12 +112,14 @@ XInstanceOk(sys, X, m) ==
   /\ Len(X.lam) = sys.nv /\ Len(X.yq) = NB(sys) /\ Len(X.a) = NB(sys) /\ X.N >= 1
   /\ \A v \in 1..sys.nv : X.lam[v] \in 0..64
   /\ \A b \in 1..NB(sys) :
-       /\ X.a[b] >= 0 /\ X.yq[b] >= 0 /\ X.yq[b] < 4000000 /\ m.d[b] >= 1 /\ m.d[b] <= 100000 /\ m.p1[b] <= 4000
-       /\ (4 * X.yq[b]) % m.d[b] = 0 /\ X.yq[b] \div m.d[b] < 1000                  \* y/d in units 1/16 is an integer
+       /\ X.a[b] >= 0 /\ X.yq[b] >= 0 /\ X.yq[b] < 4000000 /\ m.d[b] <= 100000 /\ m.p1[b] <= 4000
+       \* a bin with mean 0 sees no voxel and has no counts (it then contributes nothing anywhere)
+       /\ IF m.d[b] = 0 THEN m.p1[b] = 0 /\ X.yq[b] = 0
+          ELSE m.d[b] >= 1 /\ (4 * X.yq[b]) % m.d[b] = 0 /\ X.yq[b] \div m.d[b] < 1000       \* y/d in units 1/16 is an integer
        /\ m.p1[b] > 0 => (X.yq[b] > 0 /\ (4096 * m.p1[b]) % X.yq[b] = 0 /\ (4 * m.p1[b]) \div X.yq[b] < 1000)
 
 (* gradient of the log-likelihood for subset s:  P_S^T (y/d - 1), units 1/16 *)
-XGradLL(sys, X, m, s, v) == LET g(b) == (4 * X.yq[b]) \div m.d[b] - 16 IN Back(sys, X, m, g, s, v)
+XGradLL(sys, X, m, s, v) == LET g(b) == IF m.d[b] > 0 THEN (4 * X.yq[b]) \div m.d[b] - 16 ELSE -16 IN Back(sys, X, m, g, s, v)
 (* minus the approximate Hessian (ybar replaced by y) applied to the uniform image:             *)
 (*   - (H~ 1)_v = SUM_b P_bv (P 1)_b / y_b     (all subsets), units 2^-HK                       *)
 XDenData(sys, X, m, v) == LET h(b) == IF m.p1[b] > 0 THEN (4096 * m.p1[b]) \div X.yq[b] ELSE 0 IN Back(sys, X, m, h, -1, v)
